@@ -508,3 +508,122 @@ def gen_elements(rng, N, nmax=6):
         s.update(op="elements", deg=[rng.randint(-9, 12) for _ in range(n)], orient=orient)
         out.append(s)
     return out
+
+
+TXT_BAD = [",", ":", "\n", "\r"]
+
+
+def txt_ok(name):
+    return name != "" and name == name.strip() and not any(ch in name for ch in [",", ":", "\n", "\r", "\x0b", "\x0c", "\x1c", "\x1d", "\x1e", "\x85", "\u2028", "\u2029"])
+
+
+def gen_rt(rng, N, nmax=6, faults=None):
+    out = []
+    for _ in range(N):
+        g, E = gen.gen_graph(rng, 1, nmax)
+        n = g["n"]
+        style = rng.choice(["v", "letters", "unicode", "long", "blanks", "digits", "mixed", "hostile"])
+        if style == "hostile":
+            pool = ["a,b", "x:y", " lead", "trail ", "VERTICES: z", "GRAPH_EDGE", "---DEGREES---", "é, ü", "tab\tin", "q\"uote", "{brace}", "[1, 2]", "null", "-", "--", "0", "-0", "1e3", "DEGREE: a, 1", "EDGE: a, b, 1", "#", "日本", "a b c"]
+            names = sorted(rng.sample(pool, n)) if n <= len(pool) else gen.gen_names(rng, n)
+        else:
+            names = gen.gen_names(rng, n, style=style)
+        g["names"] = names
+        g.pop("warmup", None)
+        kind = rng.choice(["graph", "divisor", "divisor", "orientation", "script"])
+        mag = rng.choice([3, 50, 2 ** 40, 2 ** 53 + 1, 2 ** 70, 10 ** 30])
+        s = dict(g)
+        s.update(op="rt", kind=kind, txt=all(txt_ok(nm) for nm in names), fseed=rng.randrange(10 ** 6), _style=style, _mag=mag)
+        if faults:
+            s["faults"] = faults
+        if kind == "divisor":
+            s["deg"] = [rng.randint(-mag, mag) for _ in range(n)]
+            s["via_apply"] = rng.random() < 0.15
+        elif kind == "orientation":
+            orient = []
+            mode = rng.choice(["none", "partial", "full"])
+            for a, b in E.keys():
+                if mode == "full" or (mode == "partial" and rng.random() < 0.5):
+                    orient.append([a, b] if rng.random() < 0.5 else [b, a])
+            rng.shuffle(orient)
+            s["orient"] = orient
+        elif kind == "script":
+            dense = rng.random() < 0.4
+            s["script"] = [[i, rng.choice([0, 0, rng.randint(-mag, mag)]) if not dense else rng.randint(-mag, mag)] for i in range(n) if dense or rng.random() < 0.6]
+        out.append(s)
+    return out
+
+
+def all_connected_simple_graphs(n):
+    """every connected simple graph on vertices 0..n-1 (labelled), as edge dicts"""
+    import itertools
+    pairs = [(a, b) for a in range(n) for b in range(a + 1, n)]
+    out = []
+    for mask in range(1, 1 << len(pairs)):
+        E = {pairs[i]: 1 for i in range(len(pairs)) if mask >> i & 1}
+        comp = list(range(n))
+
+        def find(x):
+            while comp[x] != x:
+                x = comp[x]
+            return x
+        for a, b in E:
+            comp[find(a)] = find(b)
+        if len({find(v) for v in range(n)}) == 1:
+            out.append(E)
+    return out
+
+
+def gen_bounds(rng, N, nmax=5, exhaustive_upto=4):
+    out = []
+    pool = []
+    for n in range(2, exhaustive_upto + 1):
+        pool += [(n, E) for E in all_connected_simple_graphs(n)]
+    def warm(s):
+        # same graph object asked twice: first on a prefix of the edges, then after the rest was inserted
+        if len(s["edges"]) >= 2 and rng.random() < 0.35:
+            s["warmup"] = rng.randint(1, len(s["edges"]) - 1)
+        return s
+    for n, E in pool:
+        out.append(warm({"op": "bounds", "n": n, "edges": gen.present_edges(rng, E, split=False), "names": gen.gen_names(rng, n), "_kind": "exhaustive"}))
+    for _ in range(N):
+        n = rng.randint(min(nmax, exhaustive_upto + 1), nmax)
+        kind, E = gen.simple_family(rng, n)
+        E = {e: 1 for e in E}                      # simple graph underlying the family
+        out.append(warm({"op": "bounds", "n": n, "edges": gen.present_edges(rng, E, split=False), "names": gen.gen_names(rng, n), "_kind": kind}))
+    return out
+
+
+def multipartite_edges(parts):
+    verts, start = [], 0
+    groups = []
+    for p in parts:
+        groups.append(list(range(start, start + p)))
+        start += p
+    E = {}
+    for i in range(len(groups)):
+        for j in range(i + 1, len(groups)):
+            for a in groups[i]:
+                for b in groups[j]:
+                    E[(a, b)] = 1
+    return start, E
+
+
+def gen_closed(rng, tier):
+    out = []
+    for n in range(-1, 9):
+        out.append({"op": "closed", "name": "complete_graph_gonality", "arg": n})
+        out.append({"op": "closed", "name": "parking_function_count", "arg": n})
+    import itertools
+    maxsum = 6 if tier == "quick" else 7
+    for k in range(0, 4):
+        for parts in itertools.product(range(1, 5), repeat=k):
+            if sum(parts) <= maxsum:
+                s = {"op": "closed", "name": "complete_multipartite_gonality", "arg": list(parts)}
+                if k >= 1 and 2 <= sum(parts) <= (5 if tier == "quick" else 6):
+                    n, E = multipartite_edges(parts)
+                    if k == 1:
+                        E = {(a, b): 1 for a in range(n) for b in range(a + 1, n)}   # single part = K_n per the library's convention
+                    s["_graph"] = {"n": n, "edges": [[a, b, 1] for (a, b) in E]}
+                out.append(s)
+    return out
